@@ -123,22 +123,30 @@ func (r *Rand) Fork(label uint64) *Rand { return NewRand(Mix(r.Uint64(), label))
 // Log is the event log of one run. Lines are hashed as they are appended; only
 // the last Keep lines are retained for reporting.
 type Log struct {
-	h     [32]byte
-	N     int
-	Keep  int
-	lines []string
-	Full  bool // keep everything (replay / failure reporting)
+	h      [32]byte
+	N      int
+	Keep   int
+	lines  []string
+	Full   bool // keep everything (replay / failure reporting)
+	frozen bool
 }
+
+// Freeze stops hashing: lines added afterwards (tear-down of the simulated
+// nodes, which happens after the oracle has decided) are recorded but are not
+// part of the run's identity.
+func (l *Log) Freeze() { l.frozen = true }
 
 func NewLog() *Log { return &Log{Keep: 400} }
 
 func (l *Log) Add(format string, a ...any) {
 	s := fmt.Sprintf(format, a...)
 	l.N++
-	hh := sha256.New()
-	hh.Write(l.h[:])
-	hh.Write([]byte(s))
-	copy(l.h[:], hh.Sum(nil))
+	if !l.frozen {
+		hh := sha256.New()
+		hh.Write(l.h[:])
+		hh.Write([]byte(s))
+		copy(l.h[:], hh.Sum(nil))
+	}
 	l.lines = append(l.lines, s)
 	if !l.Full && len(l.lines) > 2*l.Keep {
 		l.lines = append([]string(nil), l.lines[len(l.lines)-l.Keep:]...)
@@ -272,7 +280,7 @@ type Prop struct {
 
 var registry = map[string]*Prop{}
 
-func Register(p *Prop) { registry[p.ID] = p }
+func Register(p *Prop)       { registry[p.ID] = p }
 func Lookup(id string) *Prop { return registry[id] }
 func IDs() []string {
 	var ids []string
